@@ -7,8 +7,6 @@ package rpc
 // evaluated at the time of the use.
 
 import (
-	"encoding/base64"
-	"encoding/json"
 	"fmt"
 	"strings"
 	"sync"
@@ -77,21 +75,11 @@ type vHistResult struct {
 	ExpiredAfterValidUse int
 }
 
-// vTokenExpiry reads ExpiresAt out of the token's own payload.
+// vTokenExpiry reads the expiry out of the token's own claim bytes with the harness's reference
+// reading (not with the repository's payload struct).
 func vTokenExpiry(tok string) (time.Time, error) {
-	seg := strings.Split(tok, ".")
-	if len(seg) != 3 {
-		return time.Time{}, fmt.Errorf("token does not have three segments")
-	}
-	raw, err := base64.RawURLEncoding.DecodeString(seg[1])
-	if err != nil {
-		return time.Time{}, err
-	}
-	var p perms.JWTPayload
-	if err := json.Unmarshal(raw, &p); err != nil {
-		return time.Time{}, err
-	}
-	return p.ExpiresAt, nil
+	_, exp, err := vRefTokenClaims(tok)
+	return exp, err
 }
 
 // vRepresentatives picks one non-channel method per declared perm level.
@@ -109,7 +97,10 @@ func vRepresentatives(s *vServer) []*vMethod {
 }
 
 // vRunHistory executes one history on a fresh server instance.
-func vRunHistory(cfg vSrvCfg, events []string) (res vHistResult, err error) {
+// variant decides how the three tokens are built: bit 0 clear = T1 from literal claim bytes with the
+// claim names the tree issues and T2 through the repository's minting helper, bit 0 set = the other
+// way round; bit 1 clear = the expired-at-mint token from literal claim bytes, set = through the helper.
+func vRunHistory(cfg vSrvCfg, events []string, variant int) (res vHistResult, err error) {
 	res.Events = events
 	s, err := newVServer(cfg)
 	if err != nil {
@@ -126,24 +117,33 @@ func vRunHistory(cfg vSrvCfg, events []string) (res vHistResult, err error) {
 		cred vCred
 		exp  time.Time
 	}
-	mk := func(name string, allow []auth.Permission, ttl time.Duration) (tok, error) {
-		t, err := authtoken.NewSignedJWT(signer, allow, ttl)
-		if err != nil {
-			return tok{}, err
+	mk := func(name string, allow []auth.Permission, ttl time.Duration, literal bool) (tok, error) {
+		var t string
+		if literal {
+			t = vLiteralTimedToken(allow, time.Now().Add(ttl), fmt.Sprintf("%s/%v/%d", name, events, variant))
+		} else {
+			var err error
+			if t, err = authtoken.NewSignedJWT(signer, allow, ttl); err != nil {
+				return tok{}, err
+			}
 		}
 		exp, err := vTokenExpiry(t)
 		if err != nil {
 			return tok{}, err
 		}
+		if exp.IsZero() {
+			return tok{}, fmt.Errorf("token %s carries no expiry the reference reading can see (claim names changed?)", name)
+		}
 		return tok{vBearer(name, "signed", allow, t), exp}, nil
 	}
 	toks := map[string]tok{}
 	for _, d := range []struct {
-		n   string
-		a   []auth.Permission
-		ttl time.Duration
-	}{{"T1", allow, vHistTTL1}, {"T2", allow, vHistTTL2}, {"expired-at-mint", perms.AllPerms, -time.Second}} {
-		t, err := mk(d.n, d.a, d.ttl)
+		n       string
+		a       []auth.Permission
+		ttl     time.Duration
+		literal bool
+	}{{"T1", allow, vHistTTL1, variant&1 == 0}, {"T2", allow, vHistTTL2, variant&1 == 1}, {"expired-at-mint", perms.AllPerms, -time.Second, variant&2 == 0}} {
+		t, err := mk(d.n, d.a, d.ttl, d.literal)
 		if err != nil {
 			return res, err
 		}
@@ -310,15 +310,16 @@ func vRunHistories(cfg vSrvCfg, maxLen, workers int, deadline time.Time, onViola
 					mu.Unlock()
 					return
 				}
-				h := hs[next]
+				h, hi := hs[next], next
 				next++
 				mu.Unlock()
-				res, err := vRunHistory(cfg, h)
+				variant := hi % 4
+				res, err := vRunHistory(cfg, h, variant)
 				retries := 0
 				for err != nil && retries < 3 && vTransportError(err) {
 					// a connection dropped under machine load is not an observation: run the history again on a fresh server
 					retries++
-					res, err = vRunHistory(cfg, h)
+					res, err = vRunHistory(cfg, h, variant)
 				}
 				mu.Lock()
 				st.Retries += int64(retries)
@@ -365,12 +366,12 @@ func vRunHistories(cfg vSrvCfg, maxLen, workers int, deadline time.Time, onViola
 					}
 				}
 				if st.Sample == nil && len(h) == maxLen && res.ExpiredAfterValidUse > 0 {
-					st.Sample = map[string]any{"history": h, "ttl_T1_ms": vHistTTL1.Milliseconds(), "ttl_T2_ms": vHistTTL2.Milliseconds(), "cells": res.Cells}
+					st.Sample = map[string]any{"history": h, "ttl_T1_ms": vHistTTL1.Milliseconds(), "ttl_T2_ms": vHistTTL2.Milliseconds(), "token_variant": variant, "cells": res.Cells}
 				}
 				mu.Unlock()
 				for _, c := range res.Cells {
 					if c.verdict != nil {
-						onViolation(c.verdict, vCase{Cfg: cfg, Transport: c.Transport, Method: c.Method, History: h, Step: c.Step})
+						onViolation(c.verdict, vCase{Cfg: cfg, Transport: c.Transport, Method: c.Method, History: h, Step: c.Step, Variant: variant})
 					}
 				}
 			}
